@@ -1189,9 +1189,57 @@ Section ComposeSessRS.
     unfold wire_pkts_rs in Hq. apply in_map_iff in Hq. destruct Hq as (q0 & <- & _).
     unfold to_apkt_rs. destruct (c_fec _); reflexivity.
   Qed.
+
+  (* D44: the same without the premise "no close-object flag before the FDT packet" *)
+  Theorem rs_session_late_join_general_any_flag_before_fdt window closable debug fti pre : (1 <= window)%nat ->
+    Forall (fun p => a_toi p = toi) pre ->
+    Forall (fun p => rs_genuine_pkt oti content rep' p = true) pre ->
+    Forall (fun p => a_oti p = Some (oti, L) /\ a_cenc p = None) pre ->
+    let '(_, r, cx) := recv_run E fdt_oracle rcfg recv0
+                         (map (fun p => RvPush p nowr)
+                              (pre ++ pf :: obj_wire_rs rep raptor_src cfg m window closable debug content fti)) ctx0 in
+    session_meta_delivered_rs cfg complete now m content rcfg r cx.
+  Proof.
+    intros Hw Tp Gp Pp. destruct (obj_wire_facts_rs window closable debug fti Hw) as (Hsok & Hbok & T & G & Rec & body & lst & Ew & Fb & Cl).
+    cbv zeta in T, G, Rec, Ew. set (w := obj_wire_rs rep raptor_src cfg m window closable debug content fti) in *.
+    pose proof HS as (_ & _ & _ & _ & _ & _ & _ & _ & _ & Htoi & _).
+    pose proof HR as (Hwa & Hws & Hmd5 & Hmds & Hmax & Hnb & _).
+    assert (Cf : close_flag_ok_after (rs_recoverable oti L) pre w).
+    { rewrite Ew. apply close_flag_ok_after_last; [exact Fb|]. rewrite <- Ew. exact (Rec pre). }
+    pose proof (rs_session_fdt_late_delivers_any_flag_before_fdt E fdt_oracle rcfg oti content rep' toi (obj_md5 m) nowr pf id (nocode_roti (c_oti cfg))
+                  (fdt_doc cfg complete now m) (sess_inst_rs cfg now m) pre w Hsok Hbok Htoi sess_pf_ok_rs sess_oracle_rs sess_live_rs
+                  sess_entry_rs Hwa Hws Hmd5 Hmds Hmax Hnb (proj2 (Forall_app _ _ _) (conj Tp T)) (proj2 (Forall_app _ _ _) (conj Gp G))
+                  Pp Cf (Rec pre)) as D.
+    destruct (recv_run E fdt_oracle rcfg recv0 (map (fun p => RvPush p nowr) (pre ++ pf :: w)) ctx0) as [[xs r] cx].
+    split; [exact D|]. destruct D as (_ & Hex & _). destruct (sess_meta_rs cx Hex) as [P M].
+    split; [exact P|]. split; [exact sess_oracle_rs|exact M].
+  Qed.
+
+  (* the receiver joins at ANY packet offset j of a transfer with in-band FTI - carousel or LAST (closable1) -, then the
+     FDT packet, then one whole further transfer *)
+  Theorem rs_session_late_join_any_flag_before_fdt window1 closable1 debug1 (j : nat) window closable debug fti :
+    (1 <= window1)%nat -> (1 <= window)%nat ->
+    let '(_, r, cx) := recv_run E fdt_oracle rcfg recv0
+                         (map (fun p => RvPush p nowr)
+                              (skipn j (obj_wire_rs rep raptor_src cfg m window1 closable1 debug1 content true)
+                               ++ pf :: obj_wire_rs rep raptor_src cfg m window closable debug content fti)) ctx0 in
+    session_meta_delivered_rs cfg complete now m content rcfg r cx.
+  Proof.
+    intros Hw1 Hw. destruct (obj_wire_facts_rs window1 closable1 debug1 true Hw1) as (_ & _ & T & G & _).
+    cbv zeta in T, G. set (w1 := obj_wire_rs rep raptor_src cfg m window1 closable1 debug1 content true) in *.
+    assert (Sub : forall P : apkt -> Prop, Forall P w1 -> Forall P (skipn j w1)).
+    { intros P F. rewrite <- (firstn_skipn j w1) in F. apply Forall_app in F. apply F. }
+    apply rs_session_late_join_general_any_flag_before_fdt; [exact Hw|apply Sub; exact T|apply Sub; exact G|apply Sub].
+    unfold w1, obj_wire_rs. apply Forall_forall. intros p Hp. apply in_map_iff in Hp. destruct Hp as (q & <- & Hq).
+    split; [reflexivity|].
+    unfold wire_pkts_rs in Hq. apply in_map_iff in Hq. destruct Hq as (q0 & <- & _).
+    unfold to_apkt_rs. destruct (c_fec _); reflexivity.
+  Qed.
 End ComposeSessRS.
 
 Print Assumptions rs_session_clean_channel.
+Print Assumptions rs_session_late_join_general_any_flag_before_fdt.
+Print Assumptions rs_session_late_join_any_flag_before_fdt.
 Print Assumptions rs_session_late_join_general.
 Print Assumptions rs_session_late_join.
 
